@@ -221,6 +221,24 @@ def step_num(res):
         raise Unsupported('step ref %r' % (n,))
 
 
+def _inside_integration(q):
+    """A query shipped to an integration is evaluated THERE: a leftover integration qualifier on a column or a table
+    names nothing the integration knows (it becomes an unresolvable reference = ERR in SQLSem)."""
+    def walk(o):
+        if isinstance(o, dict):
+            if o.get('e') == 'col' and 'q3' in o:
+                o['t'] = '?unstripped-qualifier:' + o['q3']
+            if o.get('f') == 'table' and o.get('db'):
+                o['name'] = '?unstripped-qualifier:%s.%s' % (o['db'], o['name'])
+            for v in list(o.values()):
+                walk(v)
+        elif isinstance(o, list):
+            for v in o:
+                walk(v)
+    walk(q)
+    return q
+
+
 def plan_steps(plan):
     """-> list of {'kind', 'defdb', 'q'} in plan order; raises Unsupported for steps outside the model."""
     out = []
@@ -231,7 +249,7 @@ def plan_steps(plan):
         if k == 'FetchDataframeStep':
             if getattr(s, 'raw_query', None):
                 raise Unsupported('raw query')
-            out.append({'kind': 'fetch', 'defdb': str(s.integration), 'q': query(s.query)})
+            out.append({'kind': 'fetch', 'defdb': str(s.integration), 'q': _inside_integration(query(s.query))})
         elif k == 'SubSelectStep':
             q = query(s.query)
             if q['from'].get('f') != 'none':
